@@ -25,7 +25,7 @@ MANDATORY = ["ungrouped_add_ancilla_inside_span", "child_edited_after_add", "rej
              "reject:oversize_add_trailing_ancilla", "reject:oversize_add_heralded_child", "reject:plus_size", "reject:noninteger_mode",
              "shared_instances_checked", "passed_to:Simulator", "passed_to:Sampler", "passed_to:QuickSampler",
              "passed_to:Analyzer", "passed_to:Reck", "passed_to:Display", "passed_to:tomography", "converter_run",
-             "reused_object_contains_plain_group", "parent_edited_after_copy", "frozen_copy_taken", "returned_values_scribbled"]
+             "reused_object_contains_plain_group", "parent_edited_after_copy", "frozen_copy_taken", "returned_values_scribbled", "copies_and_sums_rewritten"]
 DECIDING = ["mon.arg_fingerprints_compared", "mon.reject_atomicity_checks", "parent_stability_comparisons",
             "shared_instance_comparisons"]
 BUDGET = {"quick": 30, "thorough": 480}
@@ -120,6 +120,15 @@ def reuse_history(ctx, lw, rng):
         x = b.leaf(int(rng.integers(1, 4)), int(rng.integers(1, 5)), xlog, heralds=0)
     else:
         x = b.leaf(int(rng.integers(2, 5)), int(rng.integers(1, 5)), xlog, heralds=int(rng.integers(1, 3)))
+    if rng.random() < 0.35 and not x._internal_modes:
+        nnx = b.numbered(x)
+        if nnx >= 2:
+            a_ = int(rng.integers(nnx - 1))
+            x.mode_swaps({a_: a_ + 1, a_ + 1: a_})
+            if rng.random() < 0.5 and nnx >= 3:
+                x.ps((a_ + 2) % nnx, 0.4)
+            x.mode_swaps({0: nnx - 1, nnx - 1: 0})
+            xlog.append(["two_swaps_appended"])
     parents = []
     x_copy = x.copy()                       # a copy taken before anything else happens must never move
     fp_copy = circmon.circuit_fingerprint(x_copy, with_unitary=True)
@@ -188,8 +197,37 @@ def reuse_history(ctx, lw, rng):
             x.ps(0, 1.234)
         ctx.bucket("child_edited_after_add")
         hist.append(["edit_child"])
+        status_x, problems_x = circmon.compare(x, rng)
+        if status_x == "compared":
+            ctx.count("parent_stability_comparisons")
+            for kind, detail in problems_x:
+                if kind != "unitarity":
+                    ctx.violation(f"the reused circuit no longer follows its own construction history after it was used as "
+                                  f"an argument and then edited: {kind}: {detail}", case={"history": hist},
+                                  mechanism="argument_corrupted:" + kind, monitor="shadow of the reused object")
     except Exception:  # noqa: BLE001
         pass
+    # rewrites applied to a copy (or to a sum) must leave the object they were made from alone
+    try:
+        fp_x = circmon.circuit_fingerprint(x, with_unitary=True)
+        for rw in ("compress_mode_swaps", "remove_non_adjacent_bs", "unpack_groups"):
+            cpy = x.copy()
+            getattr(cpy, rw)()
+        if not x.heralds["input"]:
+            other = lw.Circuit(x.n_modes)
+            nnx = x.n_modes
+            if nnx >= 2:
+                other.mode_swaps({0: 1, 1: 0})
+            tot = x + other
+            tot.compress_mode_swaps()
+            tot2 = other + x
+            tot2.compress_mode_swaps()
+        ctx.bucket("copies_and_sums_rewritten")
+        if circmon.circuit_fingerprint(x, with_unitary=True) != fp_x:
+            ctx.violation("rewriting a copy / a sum of a circuit changed the circuit itself", case={"history": hist},
+                          mechanism="original_changed_by_rewrite_of_copy", monitor="copy independence")
+    except Exception as e:  # noqa: BLE001
+        ctx.count("rewrite_of_copy_raised:" + type(e).__name__)
     # what the read-only API hands out must not be the circuit's own storage
     for target in [x] + parents[:2]:
         try:
